@@ -159,7 +159,10 @@ EQuiescent(m, e) ==
                   "a failing statement or sink disturbed another statement, or the failure was not reported")
       \* C08 (bounded dropping): reported discard counts add up to the number of discarded statements
       m4 == Check(m3, "ok08", (m.dropping /\ m.bounded /\ e.final) => m.reported = m.dropped, "drop reports do not add up")
-  IN m4
+      \* C17: nothing logged through a logger before its removal is discarded; C20: nothing of an exited thread / across a shrink
+      m5 == Check(m4, "ok17", missing = {}, "statement logged before a logger removal (or through another logger) not delivered")
+      m6 == Check(m5, "ok20", missing = {}, "statement of an exited thread or across a queue shrink not delivered")
+  IN m6
 
 \* ------------------------------------------------------------------ configuration changes
 ESetLevel(m, e) == [m EXCEPT !.lg[e.lg].lvl = e.lvl]
@@ -217,7 +220,11 @@ ELoggerCount(m, e) ==
 \* a blocked call that is still blocked although its queue is empty and the backend idle (C09 end to end)
 EStuck(m, e) == Fail(m, "ok09", "producer still blocked with an empty queue and an idle backend")
 EFlushStuck(m, e) == Fail(m, "ok06", "flush_log does not return although the backend keeps polling")
-EBackendDead(m, e) == Fail(m, "ok10", "backend stopped making progress")
+\* the process crashed, aborted or the backend stopped making progress: whatever the scenario family, that is an alarm
+EBackendDead(m, e) ==
+  LET why == "process crashed/aborted or backend stopped making progress" IN
+  Fail(Fail(Fail(Fail(Fail(Fail(Fail(Fail(Fail(m, "ok03", why), "ok05", why), "ok06", why), "ok08", why), "ok09", why), "ok10", why),
+       "ok16", why), "ok17", why), "ok20", why)
 
 MStep(m, e) ==
   CASE e.k = "sink" -> ESink(m, e)
